@@ -684,6 +684,11 @@ impl Session {
     }
 
     fn spawn_tracker(&mut self) {
+        // Previous tracker task is still announcing (it retries until success)
+        if self.tracker.job.is_some() {
+            return;
+        }
+
         let mut tracker = TrackerClient::new(
             &self.own_id,
             self.metainfo.clone(),
